@@ -171,7 +171,8 @@ Flushed(m, id, sname) == Delivered(m, id, sname) /\ IdxOf(m.sk[sname].written, i
 
 EFlushCall(m, e) ==
   \* everything the caller logged before; with ordering enabled also what any thread had enqueued (system clock)
-  LET own == {id \in DOMAIN m.st : m.st[id].t = e.t /\ m.st[id].acc = 1}
+  \* (an immediate-flush log call flushes from inside the call: its own statement is committed but the call still open)
+  LET own == {id \in DOMAIN m.st : m.st[id].t = e.t /\ (m.st[id].acc = 1 \/ (m.st[id].acc = -2 /\ m.st[id].committed))}
       others == IF m.grace > 0
                 THEN {id \in DOMAIN m.st : m.st[id].acc = 1 /\ m.st[id].sys /\ m.st[id].t # e.t}
                 ELSE {} IN
